@@ -154,7 +154,7 @@ def main(argv=None):
             if r.get("error"):
                 print("   " + r["error"].replace("\n", "\n   "))
             if r.get("violation") and r["status"] != "known_finding":
-                print("   " + json.dumps(r["violation"], default=str)[:1500])
+                print("   " + json.dumps(r["violation"], default=str)[:700])
     seen = set()
     for k, r in known_hits:
         if k["id"] in seen:
